@@ -111,7 +111,9 @@ func c12ReadFilter(c *core.Ctx, rd *ssa.Function, tag string) {
 		if ssax.TypeName(a.Instr.Value().Type()) != "" {
 			continue
 		}
-		if sl, ok := a.Instr.Value().Type().Underlying().(interface{ Elem() interface{ String() string } }); ok {
+		if sl, ok := a.Instr.Value().Type().Underlying().(interface {
+			Elem() interface{ String() string }
+		}); ok {
 			_ = sl
 		}
 		if a.Instr.Value().Type().String() != "[]*"+core.ModPath+"/persistence/queue.Elem" {
